@@ -63,6 +63,7 @@ func (g *Gen) depositSteps(id uint64, amountTRB, tipTRB int64, wait int) []func(
 // depositStepsRaw: like depositSteps; a non-empty raw is the exact value every validator reports (hostile encodings)
 func (g *Gen) depositStepsRaw(id uint64, amountTRB, tipTRB int64, wait int, raw string) []func() [][]byte {
 	rcpt := g.c.W.Users[int(id)%len(g.c.W.Users)]
+	selfClaim := g.r.Chance(0.5)
 	mk := func(a, t int64) string {
 		if raw != "" {
 			return raw
@@ -89,6 +90,9 @@ func (g *Gen) depositStepsRaw(id uint64, amountTRB, tipTRB int64, wait int, raw 
 		return func() [][]byte {
 			g.ForceGap = gap
 			s := g.free(g.user)
+			if selfClaim && !g.tb.Used(rcpt) {
+				s = rcpt // the recipient claims its own deposit (it is then also the one the tip part goes to)
+			}
 			if s == nil {
 				return nil
 			}
@@ -217,6 +221,10 @@ func init() {
 	fragments["depositTruncated"] = hostileDeposit(11, func(g *Gen) string {
 		v := DepositValue([]byte{11, 1}, g.c.W.Users[5].Bech(), e18(6), big.NewInt(0))
 		return v[:len(v)-70]
+	})
+	fragments["depositModuleRecipient"] = hostileDeposit(13, func(g *Gen) string {
+		// a well-formed address the bank refuses to credit (a module account): the claim cannot pay the recipient
+		return DepositValue([]byte{13, 1}, authtypes.NewModuleAddress([]string{"fee_collector", "bonded_tokens_pool", "bridge", "distribution"}[g.r.Pick(4)]).String(), e18(5), e18(1))
 	})
 	fragments["depositZero"] = hostileDeposit(12, func(g *Gen) string {
 		return DepositValue([]byte{12, 1}, g.c.W.Users[6].Bech(), big.NewInt(0), big.NewInt(0))
